@@ -135,8 +135,22 @@ def run(res, b, tier, seed):
             evaluations += 1
             if got != ref[(i, t)]:
                 fails.append(("history", i, t, got, seq))
+    # (c) the tsh COMMAND with both targets in one invocation, repeatedly, in fresh processes: the files it writes are the library's
+    #     results every time (round 8: C14-B, the targets produced concurrently on one transpiler object - about a quarter of the runs
+    #     mixed the two scripts)
+    import cli
+    cli_idx = [i for i, c in enumerate(progs) if ref[(i, "bash")].startswith("OK") and ref[(i, "batch")].startswith("OK")]
+    cli_idx = cli_idx[:4] + cli_idx[25:27] + cli_idx[-8:-5]
+    reps = 6 if quick else 40
+    jobs = [(i, ts) for i in cli_idx for ts in (("bash", "batch"), ("batch", "bash")) for _ in range(reps)]
+    cli_out = common.pmap(lambda j: cli.compare_with_library(b, progs[j[0]], j[1]), jobs)
+    for (i, ts), probs in zip(jobs, cli_out):
+        evaluations += 1
+        if probs:
+            fails.append(("tsh command, targets %s in one invocation: %s" % (" ".join(ts), "; ".join(probs)), i, ts[0], "see what"))
     res.coverage.update(dict(
         evaluations=evaluations,
+        command_invocations=len(jobs),
         distinct_nontrivial=len({(i, t) for (i, t) in ref}),
         rule="each of %d programs (seeds, generated, import graphs) x 2 targets: result of a single call in a fresh process vs (a) repeated runs in other "
              "fresh processes (map iteration seeds) and (b) %d interleaved histories of 2-6 Transpile calls on one transpiler object in relocated "
